@@ -126,41 +126,49 @@ def takeTail (s : List Char) : Option (Option Syn) :=
     | .error _ => none
   | _ => none
 
+/-- the tree content from its tokens -/
+def mkRaw (name : List Char) (es : List (List Char)) (specs : Option (List (List Char))) (url : Option (List Char))
+    (m : Option Syn) : Raw :=
+  { name := String.ofList name, extras := es.map String.ofList,
+    specs := specs.map (fun l => l.map String.ofList), url := url.map String.ofList, marker := m }
+
+/-- `(version_specification | _url)? (_MARKER_SEPARATOR marker_spec)?` after name and extras; the input has no
+leading white space -/
+def parseRest (name : List Char) (es : List (List Char)) (r : List Char) : Option Raw :=
+  match r with
+  | '(' :: r =>
+    match takeSpecs (r.length + 1) r with
+    | some (ts, r3) =>
+      match skipWs r3 with
+      | ')' :: r4 => (takeTail r4).map (mkRaw name es (some ts) none)
+      | _ => none
+    | none => none
+  | '@' :: r =>
+    match takeUri (skipWs r) with
+    | some (u, r3) => (takeTail r3).map (mkRaw name es none (some u))
+    | none => none
+  | r3 =>
+    match takeOp r3 with
+    | some _ =>
+      match takeSpecs (r3.length + 1) r3 with
+      | some (ts, r4) => (takeTail r4).map (mkRaw name es (some ts) none)
+      | none => none
+    | none => (takeTail r3).map (mkRaw name es none none)
+
+/-- `_extras?` in front of the (white-space-free) input -/
+def parseExtras (r1 : List Char) : Option (List (List Char) × List Char) :=
+  match r1 with
+  | '[' :: r => takeBracket r
+  | _ => some ([], r1)
+
 /-- `_parser.parse(text)`; `none` = lark raises `UnexpectedCharacters` / `UnexpectedToken` -/
 def parseRaw (cs : List Char) : Option Raw :=
   match takeName (skipWs cs) with
   | none => none
   | some (name, r0) =>
-    let r1 := skipWs r0
-    let ext : Option (List (List Char) × List Char) :=
-      match r1 with
-      | '[' :: r => takeBracket r
-      | _ => some ([], r1)
-    match ext with
+    match parseExtras (skipWs r0) with
     | none => none
-    | some (es, r2) =>
-      let mk (specs : Option (List (List Char))) (url : Option (List Char)) (m : Option Syn) : Raw :=
-        { name := String.ofList name, extras := es.map String.ofList,
-          specs := specs.map (fun l => l.map String.ofList), url := url.map String.ofList, marker := m }
-      match skipWs r2 with
-      | '(' :: r =>
-        match takeSpecs (r.length + 1) r with
-        | some (ts, r3) =>
-          match skipWs r3 with
-          | ')' :: r4 => (takeTail r4).map (mk (some ts) none)
-          | _ => none
-        | none => none
-      | '@' :: r =>
-        match takeUri (skipWs r) with
-        | some (u, r3) => (takeTail r3).map (mk none (some u))
-        | none => none
-      | r3 =>
-        match takeOp r3 with
-        | some _ =>
-          match takeSpecs (r3.length + 1) r3 with
-          | some (ts, r4) => (takeTail r4).map (mk (some ts) none)
-          | none => none
-        | none => (takeTail r3).map (mk none none)
+    | some (es, r2) => parseRest name es (skipWs r2)
 
 /-! ### `urllib.parse` (CPython 3.12) on printable ASCII -/
 
